@@ -1,6 +1,6 @@
 (* Lemmas for C11 (Props/C11.v): the lockset discipline, commutation of key-disjoint command lists
    over the tables of the agent model, interleavings, the shared allocators, the SEID collision. *)
-From Coq Require Import String List Bool NArith Lia ZifyN ZifyNat ZifyBool.
+From Coq Require Import String List Bool Arith NArith Lia ZifyN ZifyNat ZifyBool.
 From UPF Require Import Model.IPPool Model.Fteid Model.PortRange Model.Agent Model.Locks
      Proofs.FteidProofs Proofs.IPPoolProofs Proofs.AgentProofs.
 Import ListNotations.
@@ -55,6 +55,17 @@ Proof.
   intros H h g1 g2 a1 a2 Hne I1 I2 Ef Hw Hp S1 S2.
   destruct (lockset_drf t H a1 a2 I1 I2 Ef Hw Hp) as (l & L1 & L2).
   specialize (S1 l L1). specialize (S2 l L2). rewrite S1 in S2. inversion S2. contradiction.
+Qed.
+
+(* what the boolean atomic-region check establishes *)
+Lemma atomic_ok_spec reqs t : atomic_ok reqs t = true ->
+  forall f need, In (f, need) reqs ->
+  exists a, In a t /\ af_func a = f /\ af_covered a = true /\ (0 < af_accesses a)%nat /\ (need = true -> af_dp_inside a = true).
+Proof.
+  unfold atomic_ok. rewrite forallb_forall. intros H f need Hin. specialize (H _ Hin).
+  apply existsb_exists in H. destruct H as (a & Ia & M). unfold meets in M. cbn [fst snd] in M.
+  rewrite !andb_true_iff in M. destruct M as [[[E C] L] D]. apply String.eqb_eq in E. apply Nat.ltb_lt in L.
+  exists a. repeat split; try assumption. intros ->. cbn in D. exact D.
 Qed.
 
 Lemma dedup_In x l : In x (dedup l) -> In x l.
